@@ -323,7 +323,12 @@ def iteritems(val: t.Any) -> t.Iterable[tuple[t.Any, t.Any]]:
 
 def _is_iterable_of_pairs(val: t.Any) -> tuple[bool, t.Any]:
     cls = val.__class__
-    if not inspection.isiterabletype(cls) or inspection.ismappingtype(cls):
+    # Mappings and named tuples are iterated by key / field, whatever they contain.
+    if (
+        not inspection.isiterabletype(cls)
+        or inspection.ismappingtype(cls)
+        or inspection.isnamedtuple(cls)
+    ):
         return False, val
 
     if inspection.issequencetype(cls):
